@@ -298,6 +298,18 @@ SEED_EXPRS = [
     "c/f[lang('zh')]", "//f[lang('en-US')]", "lang('zh-Hant')", "ceiling('a')", "floor(xs:duration('P1D'))", "ceiling(xs:untypedAtomic('1.5'))", "floor(true())", "round('a')", "abs('a')",
     "function($a, b) { $a }", "function($a, 1) { $a }", "function($a, (1)) { $a }", "function($a as xs:integer, $a) { 1 }", "function(1) { 1 }",
     "namespace-uri-for-prefix('p', /*)", "in-scope-prefixes(/*)", "outermost((1 to 10, abs#1))", "outermost((//node(), //node(), map{}))", "innermost((1 to 11, [1]))",
+    # conversions of Python exceptions that were missing (round 5 of the seeded changes)
+    "format-integer(12, 'A', 'xx')", "format-integer(12, 'w', 'xx')", "round-half-to-even(12345.678, -99999999999999999999)", "round-half-to-even(12345.678e0, -99999999999999999999)",
+    "round-half-to-even(12345, -99999999999999999999)", "round(1.5, -99999999999999999999)", "parse-ietf-date('Fri, 31 Dec 9999 24:00:00 GMT')", "parse-ietf-date('31 Dec 9999 24:00 GMT')",
+    "parse-json('\"\\ud800\"', map{'fallback': function($s){1}})", "json-to-xml('\"\\ud800\"', map{'fallback': function($s){(1, 2)}})", "json-to-xml('\"\\u0000\"')",
+    "adjust-dateTime-to-timezone(xs:dateTime('2000-01-01T00:00:00Z'), xs:dayTimeDuration('P9999999999D'))", "adjust-time-to-timezone(xs:time('00:00:00Z'), xs:dayTimeDuration('-P9999999999D'))",
+    "sum((xs:yearMonthDuration('P100000000Y'), xs:yearMonthDuration('P100000000Y')))", "avg((xs:dayTimeDuration('P100000000000000D'), xs:dayTimeDuration('P100000000000000D')))",
+    "sum((xs:dayTimeDuration('P100000000000000D'), xs:dayTimeDuration('P100000000000000D')))", "avg((xs:yearMonthDuration('P100000000Y'), xs:yearMonthDuration('P100000000Y')))",
+    "deep-equal(map{1:2}, [1])", "deep-equal([1], map{1:2})", "deep-equal(map{1:2}, /*)", "deep-equal((map{}, 1), ([], 1))", "format-number(xs:double('INF'), '0%')",
+    "format-number(xs:double('-INF'), '0\u2030')", "format-number(xs:float('INF'), '#%')", "replace('a', 'a{99999999999}', 'b')", "tokenize('a', 'a{99999999999}')",
+    "analyze-string('a', 'a{99999999999}')", "matches('a', 'a{99999999999}')", "sum(true())", "sum((xs:untypedAtomic('abc'), 1))", "sum(xs:date('2020-01-01'))", "sum(xs:hexBinary('00'))",
+    "codepoints-to-string(/*)", "string-join([1, abs#1], '')", "parse-json(concat(string-join(for $i in 1 to 3000 return '[', ''), string-join(for $i in 1 to 3000 return ']', '')))",
+    "json-to-xml(concat(string-join(for $i in 1 to 3000 return '[', ''), string-join(for $i in 1 to 3000 return ']', '')))",
     "1 => zz:f()", "'a' => xs:exp()", "1 => (", "lang('en', 1)", "xs:byte(127) + 1", "round(xs:byte(127), -1)", "-xs:byte(-128)", "abs(xs:byte(-128))", "xs:unsignedByte(255) * 2",
 ]
 
@@ -476,13 +488,29 @@ def escape_and_reuse(tier, seed):
                     bad(f'evaluate raises {err}', version=version, expr=e, root=None, lc_collate=locale.setlocale(locale.LC_COLLATE))
     finally:
         locale.setlocale(locale.LC_COLLATE, saved)
+    # through the public entry points (select, iter_select, Selector) an evaluation that exceeds the interpreter's recursion limit is a dynamic error too
+    deep_json = "concat(string-join(for $i in 1 to 600 return '[', ''), string-join(for $i in 1 to 600 return ']', ''))"
+    for e in ("let $f := function($x) { $f($x) } return $f(1)", f"deep-equal(parse-json({deep_json}), parse-json({deep_json}))", "/a" + "/a" * 5000,
+              "let $f := function($g, $n) { $g($g, $n + 1) } return $f($f, 0)", f"serialize(parse-json({deep_json}), map{{'method': 'json'}})"):
+        for name, call in (('select', lambda e=e: elementpath.select(docs[1], e, parser=PARSERS['3.1'])),
+                           ('iter_select', lambda e=e: list(elementpath.iter_select(docs[1], e, parser=PARSERS['3.1']))),
+                           ('Selector.select', lambda e=e: elementpath.Selector(e, parser=PARSERS['3.1']).select(docs[1]))):
+            n += 1
+            try:
+                call()
+            except ElementPathError:
+                pass
+            except RecursionError:
+                bad(f'{name}() lets a RecursionError of the evaluation escape', version='3.1', expr=e[:80])
+            except BaseException as x:      # noqa
+                bad(f'{name}() raises {type(x).__name__}', version='3.1', expr=e[:80])
     # one finding per (exception class, innermost library function): distinct defects stay apart, one defect has one key
     fails = [{'key': k, 'items': ws[:4], 'count': len(ws), 'what': f'{k}: {ws[0]["expr"]!r} (XPath {ws[0]["version"]})'} for k, ws in fam.items()]
     return {'evaluations': n + nparse, 'distinct': nparse, 'exhaustive': False,
             'scope': f'{nparse} parses / {n} evaluations: all token strings of length <= 2 over a per-version alphabet (40-90 symbols), seeded strings of length 3-5, '
             f'{len(SEED_EXPRS)} hand-written expressions (error paths of operators, casts, date arithmetic, higher-order functions, maps/arrays, JSON, regex, '
             'collations) and token-level mutations of them; XPath 1.0-3.1; evaluated with evaluate() and select() on no document / Element / ElementTree roots; '
-            'contract: only ElementPathError escapes (RecursionError on deep inputs is outside the contract); one shared parser per version, compared with a fresh '
+            'contract: only ElementPathError escapes (RecursionError of a direct token.evaluate()/select() on deep inputs is outside the contract; through select/iter_select/Selector it is judged on 5 programs); one shared parser per version, compared with a fresh '
             'parser after failing parses', 'failures': fails}
 
 
